@@ -79,6 +79,12 @@ func (m *c10mon) Check(s *sim.Sim, st *sim.Step) []*sim.Violation {
 	if !to || rec.Panic != "" {
 		return vs
 	}
+	if rec.FaultsFired > 0 {
+		// a backend call failed during this request (fault noise): what logout owes the client then is
+		// C18's question; the clauses below describe a logout that ran to completion
+		m.stats.Count("logout-during-backend-fault")
+		return vs
+	}
 	wl := s.Cfg.Whitelist
 	if right {
 		if !flushed(rec) && len(rec.SessIn) > 0 {
